@@ -373,6 +373,45 @@ def _atom_shard(arg):
     return res.as_dict()
 
 
+def _single_broadcast_shard(method):
+    """ONE degree or size for a radial grid of several shells (documented: it is used for every shell), as a list, an int64 /
+    int32 array or a tuple: every shell is the smallest supported grid not below THAT request (added after seeded change
+    C12-L: `sizes * rgrid.size` replicates a list but multiplies a one-element array)."""
+    from grid.atomgrid import AtomGrid
+
+    res = WorkerResult(section="single-broadcast")
+    pairs = listing(method)
+    for kind, sel in (("degrees", 0), ("sizes", 1)):
+        vals = sorted(pp[sel] for pp in pairs)
+        alpha = sorted({0, 1, vals[0], vals[0] + 1, vals[1], vals[2] - 1, vals[3], vals[len(vals) // 2], vals[len(vals) // 2] + 1, vals[-2] + 1, vals[-1]})
+        for q in alpha:
+            exp = (oracle_by_degree if kind == "degrees" else oracle_by_size)(pairs, q)
+            for nshell in (2, 5):
+                rg = _rgrid(nshell)
+                for form, arg in (("list", [q]), ("int64", np.array([q], dtype=np.int64)), ("int32", np.array([q], dtype=np.int32)), ("tuple", (q,))):
+                    res.count()
+                    case = {"route": "single-broadcast", "method": method, "kind": kind, "request": q, "form": form, "shells": nshell}
+                    try:
+                        with warnings.catch_warnings():
+                            warnings.simplefilter("ignore")
+                            g = AtomGrid(rg, degrees=arg, method=method) if kind == "degrees" else AtomGrid(rg, sizes=arg, method=method)
+                        got_deg = [int(d) for d in g.degrees]
+                        got_sz = [int(b - a) for a, b in zip(g.indices[:-1], g.indices[1:])]
+                    except Exception as exc:
+                        if form == "tuple":
+                            res.inadm()      # sequences other than list / ndarray are not among the documented forms
+                            continue
+                        res.violation(f"single-broadcast:{method}:{kind}:raised", f"AtomGrid({kind}={arg!r}, {method}) on {nshell} shells raised "
+                                      f"{type(exc).__name__}: {exc}", case)
+                        continue
+                    res.nontrivial()
+                    if got_deg != [exp[0]] * nshell or got_sz != [exp[1]] * nshell:
+                        res.violation(f"single-broadcast:{method}:{kind}:mismatch", f"AtomGrid({kind}={arg!r} as {form}, {method}) on {nshell} shells: degrees "
+                                      f"{got_deg}, shell sizes {got_sz}; the request resolves to {exp} for every shell", case)
+    res.sample({"route": "single-broadcast", "method": method})
+    return res.as_dict()
+
+
 def _above_max_shard(method):
     """Requests above the maximum through the atomic constructors (added after seeded change C12-B of wave 12, which
     clamped the sector degrees of from_pruned to the largest supported degree, was missed): AtomGrid(degrees=...),
@@ -552,6 +591,8 @@ def run(ctx):
         ctx.merge(res)
     for res in lattice.pmap(_above_max_shard, list(METHODS), w):
         ctx.merge(res)
+    for res in lattice.pmap(_single_broadcast_shard, list(METHODS), w):
+        ctx.merge(res)
     ctx.cov["methods"] = list(METHODS)
     ctx.cov["supported_grids"] = {m: len(listing(m)) for m in METHODS}
 
@@ -673,6 +714,8 @@ def replay(ctx, case):
         return ctx.merge(_narrow_and_both_shard(case["method"]))
     if case.get("route") == "above-max":
         return ctx.merge(_above_max_shard(case["method"]))
+    if case.get("route") == "single-broadcast":
+        return ctx.merge(_single_broadcast_shard(case["method"]))
     if case.get("route") == "cross-method":
         return ctx.merge(_cross_method_shard((case["first"], case["then"])))
     res = WorkerResult()
